@@ -6,6 +6,7 @@ toolchain go1.25.5
 
 require (
 	github.com/ozontech/file.d v0.0.0
+	github.com/ozontech/insane-json v0.1.9
 	github.com/prometheus/client_golang v1.16.0
 	go.uber.org/zap v1.27.0
 )
@@ -36,7 +37,6 @@ require (
 	github.com/klauspost/compress v1.18.4 // indirect
 	github.com/matttproud/golang_protobuf_extensions v1.0.4 // indirect
 	github.com/mitchellh/mapstructure v1.5.0 // indirect
-	github.com/ozontech/insane-json v0.1.9 // indirect
 	github.com/pierrec/lz4/v4 v4.1.25 // indirect
 	github.com/pmezard/go-difflib v1.0.1-0.20181226105442-5d4384ee4fb2 // indirect
 	github.com/prometheus/client_model v0.3.0 // indirect
